@@ -358,6 +358,10 @@ pub fn op_strategy(cfg: HistCfg, profile: Profile) -> BoxedStrategy<Op> {
     let bulk_n = gen::size_class(cfg.churn_pow);
     let burst_n = gen::size_class(cfg.burst_pow);
     v.push((
+        cfg.w_bulk * 3,
+        (target(), target(), 1u64..=6).prop_map(|(from, to, d)| Op::Transfer { from, to, d }).boxed(),
+    ));
+    v.push((
         cfg.w_bulk,
         (target(), gen::size_class(cfg.churn_pow))
             .prop_map(|(target, n)| Op::AmendChurn { target, n })
